@@ -35,8 +35,8 @@ UNCOVERED = [
     "legacy emulator and V2 backend produce the same states for every duration / basis / idle period / evaluation times: "
     "smoke differential on ~25 tiny sequences only",
     "sampled counts are random: only looked at under a fixed numpy seed against a 6-sigma band (warnings)",
-    "float64 time conversion rel*T*1e-3 (the theorems are over the rationals; the float version is monitored and is "
-    "where finding F20 lives)",
+    "float64 time conversion rel*T*1e-3 (the theorems are over the rationals; the float version is monitored — "
+    "finding F30, repaired by clipping, lived there)",
 ]
 
 EXPLANATION = (
